@@ -52,7 +52,7 @@ def queries(tier):
                     bound="every OBU type 1..8, with/without extension byte, payload length 0..140 (1-byte/2-byte size-field boundary inside), all payload bytes", what="OBU header bits and leb128 size field match the payload; payload intact behind the size field"))
     qs.append(Query(name="pic_type_and_sps_placement", harness="C02/fill.c", gen=gen_fill, unwind=4, funcs=[PK + ":packetization_kernel (pic_type assignment and sequence-header condition, sliced)"], timeout=600,
                     bound="all combinations of idr/reference flags and slice types; arbitrary stale reorder-queue entry", what="reported picture type agrees with the frame; sequence header exactly at key frames"))
-    if tier == "thorough":
+    if False:   # did not finish in 3000 s (payload loop of 16 k bytes); the 2-byte/3-byte size-field boundary is therefore outside the claim
         qs.append(Query(name="obu_framing_p16370_16400", harness="C02/obu.c", defines=["PMIN=16370", "PMAX=16400"], gen=gen_obu, unwind=16420, funcs=OF, timeout=3000,
                         bound="payload length 16370..16400 (2-byte/3-byte boundary)", what="OBU size field matches the payload"))
     for k, heads in []:   # drain_K* queries (C02/drain.c) never finished within 900 s / 24 GB; kept in the harness directory, not registered
